@@ -151,6 +151,8 @@ type c12Op struct {
 	HName  string      `json:"hname,omitempty"`
 	HIdx   int         `json:"hidx,omitempty"`
 	OnH    bool        `json:"on_handle,omitempty"`
+	Hold   *addrT      `json:"hold,omitempty"`     // before this operation a handle for this address is taken and kept
+	OnHeld bool        `json:"on_held,omitempty"`  // the operation goes through the kept handle; HName/HIdx say where its setting is now
 }
 
 func coqScalar(v interface{}) string {
@@ -235,10 +237,23 @@ func c12RunBuilt(sep string, maxIdx int64, initTree map[string]interface{}, root
 	var steps []string
 	var dsteps []interface{}
 	tags := map[string]bool{}
+	var held *ucfg.Config
 	for _, op := range ops {
 		target := root
 		handle := "None"
-		if op.OnH {
+		if op.Hold != nil {
+			if p, _ := guard(func() { held, _ = root.Child(op.Hold.name, op.Hold.idx, opts...) }); p {
+				held = nil
+			}
+		}
+		if op.OnHeld {
+			if held == nil {
+				continue
+			}
+			target = held
+			handle = fmt.Sprintf("(Some (%s, %s))", coqStr(op.HName), coqZ(int64(op.HIdx)))
+			tags["op:on-held-handle"] = true
+		} else if op.OnH {
 			var h *ucfg.Config
 			var herr error
 			if p, _ := guard(func() { h, herr = root.Child(op.HName, op.HIdx, opts...) }); p || herr != nil || h == nil {
@@ -265,6 +280,14 @@ func c12RunBuilt(sep string, maxIdx int64, initTree map[string]interface{}, root
 				}
 				coqOp = fmt.Sprintf("OpSetChild %s %s %s None", coqStr(op.Name), coqZ(int64(op.Idx)), coqValue(ucfg.VerifDump(sub)))
 				opErr = target.SetChild(op.Name, op.Idx, sub, opts...)
+			case "setchild-self":
+				// the root config itself as the new child (of itself, or of one of its descendants):
+				// what is attached is its tree at this moment
+				coqOp = fmt.Sprintf("OpSetChild %s %s %s None", coqStr(op.Name), coqZ(int64(op.Idx)), coqValue(ucfg.VerifDump(root)))
+				opErr = target.SetChild(op.Name, op.Idx, root, opts...)
+			case "setchild-nil":
+				coqOp = fmt.Sprintf("OpSetChildNil %s %s", coqStr(op.Name), coqZ(int64(op.Idx)))
+				opErr = target.SetChild(op.Name, op.Idx, nil, opts...)
 			case "remove":
 				coqOp = fmt.Sprintf("OpRemove %s %s", coqStr(op.Name), coqZ(int64(op.Idx)))
 				removed, opErr = target.Remove(op.Name, op.Idx, opts...)
@@ -394,6 +417,46 @@ func genC12(g *Gen) {
 		}
 	}
 	tc := TreeCfg{Keys: []string{"a", "b", "c", "l"}, MaxDepth: 3, MaxWidth: 3, PNil: 2, PEmpty: 1}
+	// a handle taken for a list entry stays a live view while entries before it are removed
+	// (the entry moves down): writes through the handle afterwards, and writes through the parent
+	for i := 0; i < g.N/4+4; i++ {
+		n := 3 + r.Intn(3)
+		l := make([]interface{}, n)
+		for k := range l {
+			switch r.Intn(3) {
+			case 0:
+				l[k] = randScalar(r)
+			case 1:
+				l[k] = map[string]interface{}{"k": randScalar(r), "sub": map[string]interface{}{"x": randScalar(r)}}
+			default:
+				l[k] = []interface{}{randScalar(r), map[string]interface{}{"y": randScalar(r)}}
+			}
+		}
+		hi := 1 + r.Intn(n-1)
+		l[hi] = map[string]interface{}{"k": randScalar(r), "sub": map[string]interface{}{"x": randScalar(r)}}
+		rm := r.Intn(hi)
+		init := map[string]interface{}{"l": l, "a": randScalar(r)}
+		hold := addrT{"l", hi}
+		nested := r.Bool()
+		if nested { // a handle for something inside the entry
+			hold = addrT{fmt.Sprintf("l.%d.sub", hi), -1}
+		}
+		now := addrT{"l", hi - 1}
+		if nested {
+			now = addrT{fmt.Sprintf("l.%d.sub", hi-1), -1}
+		}
+		ops := []c12Op{
+			{Kind: "remove", Name: "l", Idx: rm, Hold: &hold},
+			{Kind: "set", Name: "zz", Idx: -1, Val: "through the handle", OnHeld: true, HName: now.name, HIdx: now.idx},
+			{Kind: "set", Name: now.name + ".pp", Idx: -1, Val: "through the parent"},
+			{Kind: "set", Name: "qq", Idx: -1, Val: uint64(7), OnHeld: true, HName: now.name, HIdx: now.idx},
+		}
+		probes := []addrT{{now.name + ".zz", -1}, {now.name + ".pp", -1}, {"l", hi - 1}, {"l", hi}, {"a", -1}}
+		if c, ok := c12Run(".", init, probes, ops); ok {
+			c.Tags = append(c.Tags, "held-handle")
+			g.Add(c)
+		}
+	}
 	for i := 0; i < g.N; i++ {
 		sep := "."
 		if r.P(1, 4) {
@@ -457,6 +520,9 @@ func genC12(g *Gen) {
 			case k < 8:
 				op.Kind = "setchild"
 				op.Val = randMap(r, tc, 1)
+				if r.P(1, 6) {
+					op.Kind, op.Val = []string{"setchild-self", "setchild-nil"}[r.Intn(2)], nil
+				}
 			default:
 				op.Kind = "merge"
 				op.Pol = r.Intn(len(policyOpts))
